@@ -190,6 +190,34 @@ def discover (mx : MX) : Disc :=
         if t != .none && canonTlsaAD mx then .recs t
         else lookupInitial mx.tlsaI mx.tlsaIAD
 
+/-! ## how a lookup fails (round 10)
+
+`ExtResolver.exchange` turns EVERY answer whose RCODE is not NOERROR into an `RCodeError{name, rcode}`; `dns.IsNotFound`
+recognises NXDOMAIN (3) alone.  `discoverTLSA` hands every lookup error that is not "not found" to its caller, and
+`daneDelivery.CheckConn` marks whatever error the discovery ended with as TEMPORARY (`exterrors.WithTemporary(err, true)`)
+— it does not ask the error (`RCodeError.Temporary()` is true for SERVFAIL only).  So for the delivery the RCODE of a
+failed lookup carries no information: FORMERR (1), SERVFAIL (2), NOTIMP (4), REFUSED (5), … are all "the lookup failed"
+(the fact `Tlsa.servfail` / `cnameErr` of the MX).  `Tlsa.under` is the fact the model reads for a TLSA query answered
+with a given RCODE when `t` is what the zone publishes. -/
+
+inductive Answered | data | notFound | failed
+deriving DecidableEq, Repr
+
+/-- `exchange` + `dns.IsNotFound` on the RCODE of an answer -/
+def answered (rcode : Nat) : Answered :=
+  if rcode = 0 then .data else if rcode = 3 then .notFound else .failed
+
+/-- what `AuthLookupTLSA` + the `IsNotFound` tests of `discoverTLSA` make of an answer with this RCODE -/
+def Tlsa.under (t : Tlsa) (rcode : Nat) : Tlsa :=
+  match answered rcode with
+  | .data => t
+  | .notFound => .none
+  | .failed => .servfail
+
+/-- `AuthLookupCNAME` for a name that IS an alias (an NXDOMAIN answer to the CNAME-type query of a name whose address
+answer showed a CNAME is outside the generated world): the fact `cnameErr` -/
+def cnameQueryFails (rcode : Nat) : Bool := answered rcode == .failed
+
 inductive Verdict | noReq | auth | err
 deriving DecidableEq
 
@@ -220,6 +248,13 @@ def MX.crashedAt (mx : MX) (stage : Nat) : MX :=
   | 3 => { mx with tlsa := .servfail }
   | _ => mx
 
+/-- The ADDRESS queries of discovery (`CheckCNAMEAD`: A, then AAAA) are answered with this RCODE.  A failed A query is
+the error of `CheckCNAMEAD`; for a host without A record the failed AAAA query leaves `rname` empty ("no address
+associated with the host").  Either way discovery ends in an error that is not "not found": the facts of a failure at
+stage 1. -/
+def MX.addrLookupAnswered (mx : MX) (rcode : Nat) : MX :=
+  if answered rcode == .failed then mx.crashedAt 1 else mx
+
 /-! ## policies -/
 
 def checkMX (p : Policy) (lvl : Nat) (d : Domain) (mx : MX) : Except Cls Nat :=
@@ -243,7 +278,7 @@ def checkConn (p : Policy) (tlsLevel : Nat) (d : Domain) (mx : MX) (s : TlsState
   | .stsPreload => .ok tlsLevel
   | .dane =>
     match discover mx with
-    | .fail => .error .temp
+    | .fail => .error .temp                   -- `WithTemporary(err, true)`: whatever the error says of itself
     | .none => .ok 0
     | .recs t =>
       match verifyDANE t mx.cert s.tlsOn with
